@@ -440,6 +440,26 @@ def check(facts, rep, tier, cfg):
                     if {"host", "hostname", "tls_server_name"} <= set(tags) and b.dominates(tags["host"], tags["hostname"]) and \
                             not (tags["hostname"] in b.reachable_from(tags["tls_server_name"])):
                         rep.ok("C17.R4", "sni-precedence", where, "host < --hostname < --tls-server-name")
+                        # a given override is always applied: from the Some edge of the test of the option, the tls_connect call is not
+                        # reachable without passing the assignment
+                        for opt in ("tls_server_name", "hostname"):
+                            for gb in range(len(b.blocks)):
+                                if b.term(gb)["k"] != "SwitchInt" or not b.dominates(gb, tags[opt]):
+                                    continue
+                                g = guard_at(facts, b, tr, gb)
+                                if g is None or g.kind != "discr" or not (g.adt or "").endswith("option::Option"):
+                                    continue
+                                if not any(x.kind == "field" and x[2] == opt and (x[3] or "").endswith("ClientArgs") for x in walk(g.pred)):
+                                    continue
+                                somes = [s2 for s2, v2 in g.edges if v2 == "Some"]
+                                rets_ = [r for r in range(len(b.blocks)) if b.term(r)["k"] == "Return"]
+                                if any(bi in b.reachable_from(s2, cut={tags[opt]}) for s2 in somes):
+                                    rep.bad("C17.R4", "override-always-applied/%s" % opt, where,
+                                            "a given --%s can be ignored: the TLS handshake is reachable from the `Some` edge of the option without "
+                                            "passing the assignment of the name to verify, so for some values the certificate is checked against a "
+                                            "name the user did not request" % opt.replace("_", "-"))
+                                else:
+                                    rep.ok("C17.R4", "override-always-applied/%s" % opt, where, "Some(%s) always becomes the verified name" % opt)
                     else:
                         rep.bad("C17.R4", "sni-precedence", where, "SNI precedence is not host < --hostname < --tls-server-name (assignments: %s)" % order)
     if "client" in crate.features:
